@@ -82,6 +82,8 @@ class Run:
         self.transparent = ()                   # record templates whose objects stand for the single value they are built from
         self.transparent_vars = set()
         self.sinks = {}                         # member name -> buffer name: String members that only receive appended text
+        self.ignore_string_members = False      # True: assignments / appends to String members of the current object are not tracked
+        self.strmem_vals = {}                   # member name -> chars: last value assigned to an (otherwise ignored) String member
         self.elem_size = {}                     # buffer name -> size in bytes of one element (byte-based sizes / offsets are scaled)
         self.objects = objects                  # True: local asl::String / asl::Array objects are modelled as bounds-checked buffers
         self.objlen = {}                        # var id -> element count of a modelled object (locals and registered parameters)
@@ -350,6 +352,11 @@ class Run:
             return v
         if name in ('length',) and not e.get('a'):
             return len(chars)
+        if (name in ('toInt', 'operator int') or name.startswith('operator int')) and not e.get('a'):
+            txt = ''.join(chr(c & 255) for c in chars if isinstance(c, int))
+            import re as _re
+            m_ = _re.match(r'\s*[-+]?\d+', txt)
+            return int(m_.group(0)) if m_ else 0
         raise Unsupported('member call `%s` on a substring' % pe(e))
 
     def obj_of(self, e):
@@ -663,7 +670,7 @@ class Run:
 
     def call(self, e):
         fn = e.get('fn') or ''
-        name = fn.split('::')[-1]
+        name = (e.get('pq') or fn).split('::')[-1]          # template arguments are not part of the member's name
         if fn in bytesets.LIBC and not e.get('clsp'):
             return bytesets.LIBC[fn](self.val(e['a'][0]))
         if fn in ('memcpy', 'memmove', 'memset') and not e.get('clsp'):
@@ -707,6 +714,51 @@ class Run:
             return self.libc_strtoul(e)
         if e.get('obj') is not None and strip_lv(e['obj']).get('k') == 'var' and strip_lv(e['obj']).get('id') in self.transparent_vars and not e.get('a'):
             return wrap(self.vars[strip_lv(e['obj'])['id']], T(self.f, e.get('t')))
+        if e.get('obj') is not None and self.ignore_string_members:
+            mo = strip_lv(e['obj'])
+            while mo.get('k') in ('temp', 'paren', 'cast'):
+                mo = strip_lv(mo['e'])
+            if (mo.get('k') == 'mem' and _on_this(mo) and (e.get('clsp') == 'asl::String' or T(self.f, mo.get('t')).get('rec') == 'asl::String')) or (_is_this(e['obj']) and name == 'operator='):
+                if name in ('operator=', 'operator<<', 'operator+=', 'append', 'assign'):
+                    vals_ = []
+                    for a_ in e.get('a', []):
+                        try:
+                            vals_.append(self.val(a_))
+                        except Unsupported:
+                            vals_.append(None)
+                    if name == 'operator=' and mo.get('k') == 'mem' and len(vals_) == 1:
+                        v_ = vals_[0]
+                        if isinstance(v_, tuple) and v_[0] == 'STRV':
+                            self.strmem_vals[mo['f']] = tuple(v_[1])
+                        elif isinstance(v_, tuple) and v_[0] == 'P':
+                            self.strmem_vals[mo['f']] = tuple(self.cstring(v_, e.get('l')))
+                        elif isinstance(v_, int):
+                            self.strmem_vals[mo['f']] = (v_,)
+                        else:
+                            self.strmem_vals.pop(mo['f'], None)
+                    return ('IGN',)
+                if name in ('operator==', 'operator!=') and len(e.get('a', [])) == 1 and mo.get('f') in self.strmem_vals:
+                    rv = self.val(e['a'][0])
+                    lhs = list(self.strmem_vals[mo['f']])
+                    rhs = self.cstring(rv, e.get('l')) if isinstance(rv, tuple) and rv[0] == 'P' else list(rv[1]) if isinstance(rv, tuple) and rv[0] == 'STRV' else None
+                    if rhs is None:
+                        raise Unsupported('`%s`' % pe(e))
+                    return int((lhs == rhs) == (name == 'operator=='))
+        if e.get('obj') is not None:
+            so_ = strip(e['obj'])
+            while so_.get('k') in ('temp', 'paren', 'cast', 'construct') and (so_.get('e') is not None or so_.get('a')):
+                so_ = strip(so_['e']) if so_.get('e') is not None else strip(so_['a'][0])
+            if so_.get('k') == 'call' and (so_.get('fn') or '').split('::')[-1] in ('substring', 'substr') and self.obj_of(so_) is not None and self.obj_of(so_) in self.strobjs and self.tmp_of(e) is None:
+                sv = self.val(so_)
+                if isinstance(sv, tuple) and sv[0] == 'STRV':
+                    if name in ('operator int', 'toInt') or (e.get('k') == 'call' and 'operator int' in (e.get('fn') or '')):
+                        txt = ''.join(chr(c & 255) for c in sv[1])
+                        import re as _re
+                        m_ = _re.match(r'\s*[-+]?\d+', txt)
+                        return int(m_.group(0)) if m_ else 0
+                    if name == 'length':
+                        return len(sv[1])
+                    raise Unsupported('member call `%s` on a substring' % pe(e))
         if e.get('obj') is not None and self.sinks:
             so = strip_lv(e['obj'])
             while so.get('k') in ('temp', 'paren', 'cast'):
@@ -756,6 +808,44 @@ class Run:
                 buf[len(buf) - 1:len(buf) - 1] = chars
                 self.objlen[oid] = len(buf) - 1
                 return ('P', ('O', oid), 0) if False else ('OBJ', oid)
+            if oid in self.strobjs and name == 'indexOf' and 1 <= len(e.get('a', [])) <= 2:
+                buf = self.bufs[('O', oid)]
+                n_ = len(buf) - 1
+                pat = self.val(e['a'][0])
+                i0 = self.val(e['a'][1]) if len(e['a']) > 1 else 0
+                if not isinstance(i0, int):
+                    raise Unsupported('`%s`' % pe(e))
+                if not 0 <= i0 <= n_:
+                    raise OOB(('O', oid), i0, n_, e.get('l'))      # strstr / strchr from outside the text
+                if isinstance(pat, tuple) and pat[0] == 'P':
+                    needle = self.cstring(pat, e.get('l'))
+                elif isinstance(pat, tuple) and pat[0] == 'STRV':
+                    needle = list(pat[1])
+                elif isinstance(pat, int):
+                    needle = [pat]
+                else:
+                    raise Unsupported('`%s`' % pe(e))
+                hay = [x & 255 if isinstance(x, int) else None for x in buf[:n_]]
+                nd_ = [x & 255 for x in needle]
+                for k_ in range(i0, n_ - len(nd_) + 1):
+                    if hay[k_:k_ + len(nd_)] == nd_:
+                        return k_
+                return -1
+            if oid in self.strobjs and name in ('substring', 'substr') and 1 <= len(e.get('a', [])) <= 2:
+                buf = self.bufs[('O', oid)]
+                n_ = len(buf) - 1
+                a = [self.val(x) for x in e['a']]
+                if not all(isinstance(x, int) for x in a):
+                    raise Unsupported('`%s`' % pe(e))
+                if name == 'substring':
+                    i0, i1 = a[0], (a[1] if len(a) > 1 else n_)
+                else:
+                    i0 = a[0] + n_ if a[0] < 0 else a[0]
+                    i0 = min(i0, n_)
+                    i1 = min(i0 + a[1], n_) if len(a) > 1 else n_
+                if i1 < i0 or i0 < 0 or i1 > n_ + 1:
+                    raise OOB(('O', oid), i1 if i1 > n_ else i0, n_, e.get('l'))
+                return ('STRV', tuple(buf[i0:i1]))
             if oid not in self.strobjs and name in ('clear', 'resize') and len(e.get('a', [])) <= 1:
                 # Array object: clear() / resize(n) change the element count (new elements are zero)
                 buf = self.bufs[('O', oid)]
@@ -785,8 +875,25 @@ class Run:
                 g = cands[0]
                 sub = Run(self.prog, g, self.bufs, depth=self.depth + 1, budget=self.budget, growable=self.growable, mems=self.mems, methods=self.methods, ignore=self.ignore, call_ptrs=self.call_ptrs, externs=self.externs)
                 sub.transparent = self.transparent
+                sub.objects = self.objects
+                sub.ignore_string_members = self.ignore_string_members
                 for p_, a in zip(g['params'], args):
+                    if self.objects and isinstance(a, tuple) and a[0] == 'P' and isinstance(a[1], tuple) and a[1][0] == 'O' and a[2] == 0 and \
+                            (T(g, p_['t']).get('ref') or T(g, p_['t']).get('rec')):
+                        # a modelled object handed to a member by reference: the parameter names the same object
+                        self.bufs[('O', p_['id'])] = self.bufs[a[1]]
+                        sub.objlen[p_['id']] = self.objlen.get(a[1][1], 0)
+                        if a[1][1] in self.strobjs:
+                            sub.strobjs.add(p_['id'])
+                        continue
                     sub.vars[p_['id']] = wrap(a, T(g, p_['t']))
+                if len(g['params']) > len(args):
+                    # default arguments (the IR carries them on the parameter when they are constants)
+                    for p_ in g['params'][len(args):]:
+                        if 'def' in p_ and isinstance(p_['def'], dict):
+                            sub.vars[p_['id']] = wrap(sub.val(p_['def']), T(g, p_['t']))
+                        else:
+                            raise Unsupported('default argument of %s' % fn)
                 return sub.run()
             raise Unsupported('member call `%s`' % pe(e))
         if self.depth > 4:
